@@ -71,9 +71,12 @@ func (c *Calcium) newWorkloadSender(ctx context.Context, ID string, resp chan *t
 				curFile = data.Dst
 				pr, pw := io.Pipe()
 				writer = pw
-				utils.SentryGo(func(ID, name string, size int64, content io.Reader, uid, gid int, mode int64) func() {
+				utils.SentryGo(func(ID, name string, size int64, content *io.PipeReader, uid, gid int, mode int64) func() {
 					return func() {
 						defer wg.Done()
+						// nobody reads the pipe once the copy is over (or never started):
+						// fail the sender's writes instead of blocking them for ever
+						defer content.Close()
 						if err := sender.calcium.withWorkloadLocked(ctx, ID, false, func(ctx context.Context, workload *types.Workload) error {
 							err := errors.WithStack(workload.Engine.VirtualizationCopyChunkTo(ctx, ID, name, size, content, uid, gid, mode))
 							resp <- &types.SendMessage{ID: ID, Path: name, Error: err}
@@ -91,6 +94,9 @@ func (c *Calcium) newWorkloadSender(ctx context.Context, ID string, resp chan *t
 			}
 		}
 		writer.Close()
+		// keep the producer going: the remaining chunks of a failed copy are dropped
+		for range sender.buffer {
+		}
 	})
 	return sender
 }
